@@ -1030,7 +1030,16 @@ class Exec:
                 h = self.stubs.get('builtin:len:string')
                 if h:
                     return h(self, st, x)
-                return z3.simplify(z3.Int2BV(z3.Length(self.zstr(x)), 64))
+                zs = z3.simplify(self.zstr(x))
+                if z3.is_string_value(zs):
+                    return bvval(len(zs.as_string().encode('utf-8', 'surrogatepass')), 64)
+                # symbolic string: uninterpreted length with the one fact code relies on (empty <=> length 0); avoids int/bv/string mixing
+                if 'strlen' not in self.uf:
+                    self.uf['strlen'] = z3.Function('strlen', z3.StringSort(), z3.BitVecSort(64))
+                ln = self.uf['strlen'](zs)
+                st.pc.append((ln == 0) == (zs == z3.StringVal('')))
+                st.pc.append(z3.ULT(ln, bvval(1 << 32, 64)))
+                return ln
             if x is NIL:
                 return bvval(0, 64)
             if isinstance(x, Slice):
